@@ -5,6 +5,7 @@ import (
 	"encoding/hex"
 	"encoding/json"
 	"fmt"
+	"math/big"
 	"reflect"
 	"strings"
 
@@ -168,6 +169,54 @@ func c01Eval(w *mc.W, cas c01Case) {
 			fail("decoded-address-not-for-net/"+cas.Kind, fmt.Sprintf("rendering %d %q", ri, r))
 		}
 	}
+	// addresses obtained from other addresses are constructible addresses too: SLP <-> cash conversion
+	// and a public key switched to another serialisation format must round-trip the same way
+	if slp || cash {
+		if _, is32 := addr.(*bchutil.AddressScriptHash32); !is32 {
+			var conv bchutil.Address
+			var cerr error
+			if msg, p := mc.Guard(func() {
+				if slp {
+					conv, cerr = bchutil.ConvertSlpToCashAddress(addr, net)
+				} else if rn.SlpPrefix != "" {
+					conv, cerr = bchutil.ConvertCashToSlpAddress(addr, net)
+				}
+			}); p {
+				fail("address-conversion-panics/"+cas.Kind, msg)
+			} else if conv != nil || cerr != nil {
+				wantPrefix := rn.CashPrefix
+				if cash {
+					wantPrefix = rn.SlpPrefix
+				}
+				typ := 0
+				if _, ok := addr.(*bchutil.AddressScriptHash); ok {
+					typ = 1
+				}
+				want := ref.CashEncode(wantPrefix, typ, wantScript)
+				if cerr != nil || conv.EncodeAddress() != want {
+					fail("converted-address-differs-from-spec/"+cas.Kind, fmt.Sprintf("got %v %v want %q", conv, cerr, want))
+				} else if got, derr := bchutil.DecodeAddress(wantPrefix+":"+want, net); derr != nil || got.EncodeAddress() != want || !bytes.Equal(got.ScriptAddress(), wantScript) {
+					fail("converted-address-does-not-round-trip/"+cas.Kind, fmt.Sprint(derr))
+				}
+			}
+		}
+	}
+	if pk, ok := addr.(*bchutil.AddressPubKey); ok {
+		pt, okp := refPointOf(data)
+		if okp {
+			for _, f := range []bchutil.PubKeyFormat{bchutil.PKFUncompressed, bchutil.PKFCompressed, bchutil.PKFHybrid} {
+				pk.SetFormat(f)
+				wantSer := map[bchutil.PubKeyFormat][]byte{bchutil.PKFUncompressed: pt.Uncompressed(), bchutil.PKFCompressed: pt.Compressed(), bchutil.PKFHybrid: pt.Hybrid()}[f]
+				if !bytes.Equal(pk.ScriptAddress(), wantSer) || pk.String() != hex.EncodeToString(wantSer) {
+					fail("pubkey-setformat-serialisation-wrong", fmt.Sprintf("format %d: %x", f, pk.ScriptAddress()))
+					continue
+				}
+				if got, derr := bchutil.DecodeAddress(pk.String(), net); derr != nil || got.String() != pk.String() || !bytes.Equal(got.ScriptAddress(), wantSer) {
+					fail("pubkey-setformat-does-not-round-trip", fmt.Sprintf("format %d: %v", f, derr))
+				}
+			}
+		}
+	}
 	if specOK {
 		w.Outcome("ok: " + cas.Kind)
 	}
@@ -243,4 +292,19 @@ func runC01(c *mc.Ctx) {
 	})
 	c.Sample("addr", cases[0])
 	c.Sample("addr", cases[len(cases)-1])
+}
+
+// refPointOf parses a serialized public key of any of the three formats with the reference curve code.
+func refPointOf(b []byte) (ref.Point, bool) {
+	switch {
+	case len(b) == 33:
+		return ref.SecParseCompressed(b)
+	case len(b) == 65:
+		x, y := new(big.Int).SetBytes(b[1:33]), new(big.Int).SetBytes(b[33:])
+		if !ref.SecOnCurve(x, y) {
+			return ref.Point{}, false
+		}
+		return ref.Point{X: x, Y: y}, true
+	}
+	return ref.Point{}, false
 }
